@@ -647,7 +647,14 @@ def prop_c06(k, cs, code, ckey):
                     return f"FAIL {framing}: the file object reports the session key {before!r} before and {key!r} after writing"
                 body_off = _header_tlvs(binary)[1]
             elif framing == "bf3":
-                binary = b3.BF3_FILE_SIG + mkfile({}, b3.parse_comps(cs)).to_binary(5, key)
+                if len(cs) % 2:
+                    binary = b3.BF3_FILE_SIG + mkfile({}, b3.parse_comps(cs)).to_binary(5, key)
+                else:
+                    # the way files are really written: write_file(stream, session_key) - text, of which the hex part is taken
+                    out = io.StringIO()
+                    mkfile({}, b3.parse_comps(cs)).write_file(out, key)
+                    tl = out.getvalue().split("\n")
+                    binary = bytes.fromhex("".join(tl[tl.index("") + 1:]))
                 body_off = 5
             else:
                 f0 = Bec2File(mkfile({}, b3.parse_comps(cs)), [InitCustKeyAuthBlock(), UpdateAuthBlock(code, 7)], key)
